@@ -1039,6 +1039,30 @@ func runC11Embedded(c *Ctx) {
 			names = append(names, k)
 		}
 		sort.Strings(names)
+		// the complete tail (footer, its length, magic) of OTHER files of the same struct: one
+		// with fewer and one with more rows than the first row group of the carrier. A prefix
+		// ending there looks like a complete file whose footer does not describe the bytes
+		// before it; the reference decides (it is not a valid file), the reader must refuse.
+		for _, nrec := range []int{1, 2, 5} {
+			if nrec > len(pool) {
+				continue
+			}
+			fo := &ioFile{ID: sh.Name + "/embedded/other", Shape: sh, Codec: 0, Page: 1000, Recs: pool[:nrec], Part: []int{nrec}}
+			if fb, ok := fo.write(c); ok {
+				if po, err := pqfile.Parse(fb); err == nil {
+					name := fmt.Sprintf("tail-of-a-%d-row-file", nrec)
+					// not F + tail here: the whole trailer of the other file replaces them
+					tails[name] = "\x00REPLACE\x00" + string(fb[po.FooterOff:])
+					// and the whole other file
+					tails[fmt.Sprintf("whole-%d-row-file", nrec)] = "\x00REPLACE\x00" + string(fb)
+				}
+			}
+		}
+		names = names[:0]
+		for k := range tails {
+			names = append(names, k)
+		}
+		sort.Strings(names)
 		for _, tn := range names {
 			id0 := fmt.Sprintf("%s/embedded/%s", sh.Name, tn)
 			if c.Only != "" && !strings.HasPrefix(c.Only, id0+"/") {
@@ -1046,7 +1070,11 @@ func runC11Embedded(c *Ctx) {
 			}
 			// second row group: a record whose string column holds footer + tail
 			carrier := cloneTree(pool[3])
-			carrier.Kids[slot] = &dremel.Tree{IsLeaf: true, V: pqfile.Val{S: F + tails[tn]}}
+			payload := F + tails[tn]
+			if strings.HasPrefix(tails[tn], "\x00REPLACE\x00") {
+				payload = strings.TrimPrefix(tails[tn], "\x00REPLACE\x00")
+			}
+			carrier.Kids[slot] = &dremel.Tree{IsLeaf: true, V: pqfile.Val{S: payload}}
 			recs := append(append([]*dremel.Tree{}, first...), carrier, pool[4])
 			f := &ioFile{ID: id0, Shape: sh, Codec: 0, Page: 1000, Recs: recs, Part: []int{3, 2}, Kind: "embedded"}
 			file, ok := f.write(c)
